@@ -285,3 +285,54 @@ pub mod compaction {
 		Ok(out)
 	}
 }
+
+/// Store control and observers (C01 / C06 / C07 / C10 / C14): deterministic placement of memtable
+/// rotation, flush and compaction rounds on a real `Tree`, and read-only views of its state.
+pub mod store {
+	use std::sync::Arc;
+
+	use crate::compaction::leveled::Strategy;
+	use crate::compaction::CompactionStrategy;
+	use crate::lsm::CompactionOperations;
+	use crate::Tree;
+
+	/// Rotates the active memtable (no-op when it is empty).
+	pub fn rotate(tree: &Tree) -> std::result::Result<(), String> {
+		tree.core.inner.rotate_memtable().map_err(|e| e.to_string())
+	}
+
+	/// Flushes every immutable memtable to an SST (oldest first).
+	pub fn flush_immutables(tree: &Tree) -> std::result::Result<(), String> {
+		tree.core.inner.flush_all_immutables_sync().map_err(|e| e.to_string())?;
+		tree.core.write_stall.signal_work_done();
+		Ok(())
+	}
+
+	/// One compaction round with the leveled strategy built from the tree's options.
+	pub fn compact_round(tree: &Tree) -> std::result::Result<(), String> {
+		let strategy: Arc<dyn CompactionStrategy> =
+			Arc::new(Strategy::from_options(Arc::clone(&tree.core.inner.opts)));
+		tree.core.inner.compact(strategy).map_err(|e| e.to_string())?;
+		tree.core.write_stall.signal_work_done();
+		Ok(())
+	}
+
+	/// Number of tables per level.
+	pub fn level_shape(tree: &Tree) -> Vec<usize> {
+		let m = tree.core.inner.level_manifest.read().expect("manifest lock");
+		m.levels.get_levels().iter().map(|l| l.tables.len()).collect()
+	}
+
+	pub fn immutable_count(tree: &Tree) -> usize {
+		tree.core.inner.immutable_count()
+	}
+
+	/// Registered snapshot sequence numbers (ascending, distinct).
+	pub fn snapshots(tree: &Tree) -> Vec<u64> {
+		tree.core.inner.snapshot_tracker.get_all_snapshots()
+	}
+
+	pub fn visible_seq(tree: &Tree) -> u64 {
+		tree.core.seq_num()
+	}
+}
